@@ -1,11 +1,14 @@
 package harness
 
 import (
+	"net"
 	"path/filepath"
 	"sync"
+	"time"
 
 	"github.com/DataDog/datadog-traceroute/icmp"
 	"github.com/DataDog/datadog-traceroute/packets"
+	"github.com/DataDog/datadog-traceroute/tcp"
 )
 
 func init() { labs["iso"] = labIso }
@@ -71,6 +74,35 @@ func labIso(e labEnv) {
 		}
 		w.put(L(sxInt(14), sxInt(int64(c0)), sxInt(int64(k))), L(out))
 		tags["echo_id_sequences"]++
+	}
+	// kind 26: the IP identifications several TCP SYN runs alive together really put on the wire (default mode), for runs
+	// with first TTL 1, first TTL > 1 and single-TTL runs (what an end-to-end probe is): input (26 counter ((first last)...))
+	// impl (((id...)...))
+	for i := 0; i < n/6; i++ {
+		c0 := pick(r, counters)
+		packets.VerifSetPacketIDCounter(c0)
+		k := 2 + r.intn(5)
+		in, out := sxList{}, sxList{}
+		for j := 0; j < k; j++ {
+			last := pick(r, []int{1, 5, 30, 30, 64, 255})
+			first := pick(r, []int{1, 1, last, 1 + r.intn(last)})
+			snk := newSimSink(nil)
+			cfg := tcp.NewTCPv4(net.IP{198, 51, 100, 7}, 443, uint8(first), uint8(last), time.Millisecond, time.Second, false, false)
+			v := tcp.VerifNewDriver(cfg, net.IP{192, 0, 2, 2}, uint16(40000+j), snk, newSimSource(nil))
+			ids := sxList{}
+			for ttl := first; ttl <= last; ttl++ {
+				_ = v.Driver().SendProbe(uint8(ttl))
+			}
+			for _, o := range snk.sent() {
+				if len(o.data) >= 6 {
+					ids = append(ids, sxInt(int64(o.data[4])<<8|int64(o.data[5])))
+				}
+			}
+			in = append(in, L(sxInt(int64(first)), sxInt(int64(last))))
+			out = append(out, ids)
+		}
+		w.put(L(sxInt(26), sxInt(int64(c0)), in), L(out))
+		tags["tcp_wire_ip_ids"]++
 	}
 	must(w.close())
 	writeDist(e, "iso", tags)
